@@ -137,7 +137,13 @@ def flushCase (c : JCase) : List String :=
   else
     let final := judgeDump { c with reps := c.lastReps, pends := c.lastPends, chainTxt := c.lastChain, snaps := [], sent := [] } true
     let nodump := if c.dumps == 0 then ["parse no-dump"] else []
-    match c.fails ++ final ++ nodump ++ (orderCheck c).1 ++ winnerCheck c with
+    -- a case in which another implementation's version (possibly with operations that are invalid
+    -- where they stand) landed on the chain is outside the hypotheses of the convergence theorems:
+    -- only the wire predicates are judged there, the rest is the correspondence's business
+    let foreign := (c.hdr.splitOn " ").contains "foreign=1"
+    let all := c.fails ++ final ++ nodump ++ (orderCheck c).1 ++ winnerCheck c
+    let all := if foreign then all.filter (fun f => f.startsWith "wire" || f.startsWith "parse") else all
+    match all with
     | [] => [s!"judge {c.hdr} :: ok"]
     | fs => fs.map fun f => s!"judge {c.hdr} :: FAIL {briefWords f}"
 
